@@ -360,7 +360,7 @@ func (vc *VC) assumeWF(v Val) {
 				}
 			}
 			vc.assumeRaw(And(Le(IntLit(0), v.Off), Le(IntLit(0), v.Len), Le(v.Len, v.Cap), bound,
-				Implies(Eq(v.T, IntLit(0)), Eq(v.Cap, IntLit(0)))))
+				Implies(Eq(v.T, IntLit(0)), And(Eq(v.Cap, IntLit(0)), Eq(v.Off, IntLit(0))))))
 		}
 	case KIface:
 		k := "wf:" + v.Tag.S
